@@ -968,7 +968,9 @@ class Columns(Widget, WidgetContainerMixin, WidgetContainerListContentsMixin):
         if size:
             return super().pack(size, focus)
         widths, heights, _ = self.get_column_sizes(size, focus)
-        return (sum(widths) + self.dividechars * max(len(widths) - 1, 0), max(heights))
+        # as render() lays the columns out: a hidden (zero-width) column takes no divider either
+        cols = sum(width + (self.dividechars if i < len(widths) - 1 else 0) for i, width in enumerate(widths) if width > 0)
+        return (cols, max(heights))
 
     def render(
         self,
